@@ -93,8 +93,11 @@ def check_C05(P, tier, SA, holder):
         if not fp:
             a0 = _one(pick(va, shifted=False), "analytic unshifted")
             n0 = _one(pick(vn, shifted=False), "numerical unshifted")
-            R.add(eq_ob("R-SHARED", a.site("measurement-point shift"), "analytic and numerical modes apply the same shift factor",
-                        a.coeff("flx") * n0.coeff("flx"), n.coeff("flx") * a0.coeff("flx")))
+            cs = [a.coeff("flx"), n0.coeff("flx"), n.coeff("flx"), a0.coeff("flx")]
+            if all(isinstance(c, Expr) for c in cs):
+                R.add(eq_ob("R-SHARED", a.site("measurement-point shift"), "analytic and numerical modes apply the same shift factor", cs[0] * cs[1], cs[2] * cs[3]))
+            else:
+                R.add(req_ob("R-SHARED", a.site("measurement-point shift"), "output coefficients are algebraic", None, detail=repr([c for c in cs if not isinstance(c, Expr)])[:200]))
         ev = [e for e in a.r.events if e[0] in ("typestate", "shape")]
         R.add(req_ob("R-SHARED", a.site("analytic path (footprint=%s)" % fp), "analytic path is shape- and layout-consistent", not ev, detail=str(ev[:3]) if ev else None))
     R.analysed = {"files": ["src/bldfm/solver.py", "src/bldfm/fft_manager.py", "src/bldfm/utils.py"],
@@ -576,6 +579,9 @@ def check_C06(P, tier, SA, holder):
     for fp, vv in ((False, vd), (True, vf)):
         for v in vv:
             R.add(RS.event_obs(v, "R-MULT", ("typestate", "shape"), "Fourier layout / truncation / padding consistent along the path (footprint=%s, clamp=%s)" % (fp, v.clamp_state())))
+            R.add(RS.event_obs(v, "R-MULT", ("spectral-line-store",), "no row or column of a spectrum is overwritten at a fixed index between the transforms (wavenumbers are only multiplied pointwise) (footprint=%s, clamp=%s)" % (fp, v.clamp_state())))
+    obs, _f, _d = registration_obligations(SA, "given", "R-REFLECT", "R-REFLECT")
+    R.add(obs)
     R.add(reflect_obligations(SA, "R-REFLECT"))
     hat = atom_of(S.halo)
     c1 = d1.coeff("flx")
@@ -647,6 +653,9 @@ def check_C07(P, tier, SA, holder):
         if isinstance(c, Expr):
             for ax in ("x", "y"):
                 R.add(eq_ob("R-MIRROR", d0.site("transfer function"), "%s transfer function is even under (k_%s, wind_%s) -> -(k_%s, wind_%s)" % (nm, ax, ax, ax, ax), c.subs(RS.mirror_map(S, c, ax)), c))
+    # footprint mode: mirror/translation of the tower needs the Green's function registered at exactly the cropped cells
+    obs_r, _f, _d = registration_obligations(SA, "given", "R-MIRROR", "R-MIRROR")
+    R.add(obs_r)
     # axis roles by shape: grid and outputs
     for fp in (False, True):
         S, vs = views(SA, fp, False, "generic")
